@@ -5,6 +5,8 @@ import (
 	"math"
 	"reflect"
 	"sort"
+	"sync"
+	"sync/atomic"
 
 	"github.com/cinar/indicator/v2/helper"
 	"github.com/cinar/indicator/v2/trend"
@@ -310,6 +312,80 @@ func bstRandom[T helper.Number](cc *run.Case, typ string, values []T, nhist int,
 	}
 }
 
+// bstParallel runs several trees at the same time, each one owned by its own
+// goroutine and checked against its own multiset: trees are independent
+// objects, what happens to one must never show in another. The histories are
+// fixed by the case's PRNG; how the goroutines interleave is up to the
+// scheduler, so every disagreement is a real one but a replay may need
+// several attempts to meet it again.
+func bstParallel(cc *run.Case, workers, nhist, maxOps int) {
+	r := cc.R
+	values := make([]float64, 24)
+	for i := range values {
+		values[i] = float64(i-12) * 0.5
+	}
+	type job struct {
+		alphabet []float64
+		steps    []bstStep
+	}
+	jobs := make([][]job, workers)
+	total := 0
+	for w := range jobs {
+		for h := 0; h < nhist; h++ {
+			k := r.Range(6, len(values))
+			perm := r.Perm(len(values))
+			alphabet := make([]float64, k)
+			for i := range alphabet {
+				alphabet[i] = values[perm[i]]
+			}
+			steps := make([]bstStep, r.Range(maxOps/2, maxOps))
+			for i := range steps {
+				op := byte('i')
+				if x := r.Intn(10); x >= 9 {
+					op = 'c'
+				} else if x >= 5 {
+					op = 'r'
+				}
+				steps[i] = bstStep{op, r.Intn(k)}
+			}
+			total += len(steps)
+			jobs[w] = append(jobs[w], job{alphabet, steps})
+		}
+	}
+	msgs := make([]string, workers)
+	at := make([]int, workers)
+	var stop atomic.Bool
+	var wg sync.WaitGroup
+	for w := range jobs {
+		wg.Add(1)
+		go func(w int) {
+			defer wg.Done()
+			for h, j := range jobs[w] {
+				if stop.Load() {
+					return
+				}
+				if m := bstRun(j.alphabet, j.steps, 16); m != "" {
+					msgs[w], at[w] = m, h
+					stop.Store(true)
+					return
+				}
+			}
+		}(w)
+	}
+	wg.Wait()
+	for w, m := range msgs {
+		if m != "" {
+			j := jobs[w][at[w]]
+			cc.Viol("", fmt.Sprintf("Bst[float64], one of %d trees that are used at the same time, each by its own goroutine: %s", workers, m),
+				map[string]any{"type": "float64", "trees": workers, "alphabet": fmt.Sprint(j.alphabet), "steps": fmtSteps(j.steps, j.alphabet)})
+			return
+		}
+	}
+	cc.Count("bst_parallel_ops", int64(total))
+	cc.Count("bst_parallel_histories", int64(workers*nhist))
+	cc.Distinct(fmt.Sprintf("bstpar/%s", cc.Label))
+}
+
 // bstExhaustive enumerates every history of exactly L steps over a 3-letter
 // alphabet (9 step kinds), restricted to those whose first step index is
 // first (so that cases can be split).
@@ -378,6 +454,9 @@ func c17(ctx *run.Ctx) {
 		ctx.Case(fmt.Sprintf("bst/float64/%d", b), func(cc *run.Case) { bstRandom(cc, "float64", f64, nh, maxOps) })
 		ctx.Case(fmt.Sprintf("bst/int8small/%d", b), func(cc *run.Case) { bstRandom(cc, "int8", small8, nh, maxOps) })
 		ctx.Case(fmt.Sprintf("bst/float64small/%d", b), func(cc *run.Case) { bstRandom(cc, "float64", smallf, nh, maxOps) })
+	}
+	for b := 0; b < ctx.Pick(2, 24); b++ {
+		ctx.Case(fmt.Sprintf("bstpar/%d", b), func(cc *run.Case) { bstParallel(cc, 8, ctx.Pick(150, 400), 300) })
 	}
 	// The sliding-window clients of the tree (trend.MovingMax / MovingMin) over
 	// the same pools plus the infinities: window k must yield the extreme of
